@@ -42,8 +42,15 @@ class _BinFile(io.BytesIO):
         return False
 
 
+_EXECUTION = [0]
+
+
 class SimFS:
     def __init__(self):
+        # every execution gets its own root directory name: code under test that keeps a process-wide cache keyed by path cannot make one
+        # simulated run (or one minimisation candidate) depend on an earlier one in the same worker process
+        _EXECUTION[0] += 1
+        self.root = "/simfs/%d_%d/" % (os.getpid(), _EXECUTION[0])
         self.files = {}
         self.reads = 0
         self.writes = 0
